@@ -15,6 +15,7 @@ import (
 	"fmt"
 	"io"
 	"io/ioutil"
+	"math"
 	"math/rand"
 	"os"
 	"reflect"
@@ -230,6 +231,14 @@ func main() {
 		ml, _ := strconv.Atoi(os.Args[4])
 		seed, _ := strconv.ParseInt(os.Args[5], 10, 64)
 		random(loadCfg(os.Args[2]), n, ml, seed, os.Args[6], os.Args[7])
+	case "streams":
+		n, _ := strconv.Atoi(os.Args[3])
+		seed, _ := strconv.ParseInt(os.Args[4], 10, 64)
+		streams(loadCfg(os.Args[2]), n, seed, os.Args[5], os.Args[6])
+	case "replicas":
+		seed, _ := strconv.ParseInt(os.Args[5], 10, 64)
+		nb, _ := strconv.Atoi(os.Args[6])
+		replicas(loadCfg(os.Args[2]), os.Args[3], os.Args[4], seed, nb)
 	case "explore":
 		seed, _ := strconv.ParseInt(os.Args[5], 10, 64)
 		nb, _ := strconv.Atoi(os.Args[6])
@@ -402,18 +411,7 @@ func explore(c Cfg, in, out string, seed int64, nbatch int) {
 	bw := bufio.NewWriterSize(w, 1<<20)
 	defer bw.Flush()
 	enc := json.NewEncoder(bw)
-	var metas []hx.Meta
-	metas = append(metas, d.zero)
-	for _, k := range c.Keys {
-		for v := 1; v <= c.Vals; v++ {
-			m := hx.Meta{}
-			for _, k2 := range c.Keys {
-				m[k2] = 0
-			}
-			m[k] = v
-			metas = append(metas, m)
-		}
-	}
+	metas := allMetas(c, d.zero)
 	sc := bufio.NewScanner(f)
 	sc.Buffer(make([]byte, 1<<20), 1<<26)
 	hid := 0
@@ -422,32 +420,7 @@ func explore(c Cfg, in, out string, seed int64, nbatch int) {
 		if err := json.Unmarshal(sc.Bytes(), &h); err != nil {
 			panic(err)
 		}
-		var ops []hx.Op
-		for id := 1; id <= c.NIds; id++ {
-			ops = append(ops, hx.Op{Op: "remove", Id: id})
-			for pt := 1; pt <= c.Np; pt++ {
-				for _, m := range metas {
-					ops = append(ops, hx.Op{Op: "insert", Id: id, Pt: pt, Lvl: (id + pt + len(h.H)) % (c.MaxLv + 1), Meta: m})
-					ops = append(ops, hx.Op{Op: "update", Id: id, Pt: pt, Meta: m})
-				}
-			}
-		}
-		ops = append(ops, hx.Op{Op: "saveload"})
-		kinds := []string{"binsert", "bupdate", "bremove"}
-		for b := 0; b < nbatch; b++ {
-			o := hx.Op{Op: kinds[rng.Intn(3)]}
-			for k := 1 + rng.Intn(3); k > 0; k-- {
-				it := hx.Item{Id: 1 + rng.Intn(c.NIds), Pt: 1 + rng.Intn(c.Np), Lvl: rng.Intn(c.MaxLv + 1), Meta: metas[rng.Intn(len(metas))]}
-				if o.Op == "bremove" {
-					it = hx.Item{Id: it.Id, Pt: 1}
-				}
-				if o.Op == "bupdate" {
-					it.Lvl = 0
-				}
-				o.Items = append(o.Items, it)
-			}
-			ops = append(ops, o)
-		}
+		ops := alphabet(c, rng, metas, len(h.H), nbatch)
 		for _, o := range ops {
 			hid++
 			enc.Encode(d.resetEvent(hid))
@@ -458,6 +431,389 @@ func explore(c Cfg, in, out string, seed int64, nbatch int) {
 				enc.Encode(d.exec(po, hid, i+1, false))
 			}
 			enc.Encode(d.exec(o, hid, len(h.H)+1, true))
+		}
+	}
+}
+
+func allMetas(c Cfg, zero hx.Meta) []hx.Meta {
+	metas := []hx.Meta{zero}
+	for _, k := range c.Keys {
+		for v := 1; v <= c.Vals; v++ {
+			m := hx.Meta{}
+			for _, k2 := range c.Keys {
+				m[k2] = 0
+			}
+			m[k] = v
+			metas = append(metas, m)
+		}
+	}
+	return metas
+}
+
+func alphabet(c Cfg, rng *rand.Rand, metas []hx.Meta, hl, nbatch int) []hx.Op {
+	var ops []hx.Op
+	for id := 1; id <= c.NIds; id++ {
+		ops = append(ops, hx.Op{Op: "remove", Id: id})
+		for pt := 1; pt <= c.Np; pt++ {
+			for _, m := range metas {
+				ops = append(ops, hx.Op{Op: "insert", Id: id, Pt: pt, Lvl: (id + pt + hl) % (c.MaxLv + 1), Meta: m})
+				ops = append(ops, hx.Op{Op: "update", Id: id, Pt: pt, Meta: m})
+			}
+		}
+	}
+	ops = append(ops, hx.Op{Op: "saveload"})
+	kinds := []string{"binsert", "bupdate", "bremove"}
+	for b := 0; b < nbatch; b++ {
+		o := hx.Op{Op: kinds[rng.Intn(3)]}
+		for k := 1 + rng.Intn(3); k > 0; k-- {
+			it := hx.Item{Id: 1 + rng.Intn(c.NIds), Pt: 1 + rng.Intn(c.Np), Lvl: rng.Intn(c.MaxLv + 1), Meta: metas[rng.Intn(len(metas))]}
+			if o.Op == "bremove" {
+				it = hx.Item{Id: it.Id, Pt: 1}
+			}
+			if o.Op == "bupdate" {
+				it.Lvl = 0
+			}
+			o.Items = append(o.Items, it)
+		}
+		ops = append(ops, o)
+	}
+	return ops
+}
+
+// ------------------------------------------------------------------ streams (C08)
+
+type sevent struct {
+	Ev     string      `json:"ev"`
+	Hid    int         `json:"hid"`
+	Hdr    int         `json:"hdr"`
+	Reader string      `json:"reader"`
+	Tgt    string      `json:"tgt"`
+	Shape  string      `json:"shape"`
+	Res    string      `json:"res"`
+	Err    string      `json:"err"`
+	Unread int         `json:"unread"`
+	Nbytes int         `json:"nbytes"`
+	Nitems int         `json:"nitems"`
+	Pre    *hx.State   `json:"pre,omitempty"`
+	St     *hx.State   `json:"st,omitempty"`
+	Cfg    interface{} `json:"cfg,omitempty"`
+}
+
+type chunkReader struct {
+	b    []byte
+	mode string
+	rng  *rand.Rand
+	n    int
+}
+
+func (r *chunkReader) Read(p []byte) (int, error) {
+	if len(r.b) == 0 {
+		return 0, io.EOF
+	}
+	if len(p) == 0 {
+		return 0, nil
+	}
+	k := len(p)
+	switch r.mode {
+	case "bytewise":
+		k = 1
+	case "halves":
+		k = (len(p) + 1) / 2
+	case "random":
+		k = 1 + r.rng.Intn(len(p))
+	case "split7":
+		k = 7 - r.n%7
+		r.n += k
+	}
+	if k > len(p) {
+		k = len(p)
+	}
+	if k > len(r.b) {
+		k = len(r.b)
+	}
+	copy(p, r.b[:k])
+	r.b = r.b[k:]
+	return k, nil
+}
+
+var shapes = []string{"none", "small", "keys40", "key255", "val65535", "nonutf8", "emptykv", "key256", "val65536"}
+
+func shapeMeta(shape string, rng *rand.Rand) index.Metadata {
+	rep := func(n int) string {
+		b := make([]byte, n)
+		for i := range b {
+			b[i] = byte('a' + rng.Intn(26))
+		}
+		return string(b)
+	}
+	switch shape {
+	case "none":
+		return nil
+	case "small":
+		return index.Metadata{"k": rep(1 + rng.Intn(5)), "kk": "v"}
+	case "keys40":
+		m := index.Metadata{}
+		for i := 0; i < 40; i++ {
+			m[fmt.Sprintf("key%02d", i)] = rep(rng.Intn(9))
+		}
+		return m
+	case "key255":
+		return index.Metadata{rep(255): "x"}
+	case "val65535":
+		return index.Metadata{"big": rep(65535)}
+	case "nonutf8":
+		return index.Metadata{"\xff\xfe\x00k": "\x80\x00\xc3\x28"}
+	case "emptykv":
+		return index.Metadata{"": "", "e": ""}
+	case "key256":
+		return index.Metadata{rep(256): "x"}
+	case "val65536":
+		return index.Metadata{"big": rep(65536)}
+	}
+	return nil
+}
+
+// streams: random index states (inserts/removes with a given metadata shape), then
+// Save(header) and Load through a fragmenting reader into a fresh or a used index.
+func streams(c Cfg, n int, seed int64, out, rankOut string) {
+	hx.MetaHash = true
+	rng := rand.New(rand.NewSource(seed))
+	vecs := make([]amath.Vector, c.Np)
+	for i := range vecs {
+		v := make(amath.Vector, c.Dim)
+		for j := range v {
+			v[j] = float32(rng.Intn(9)-4) + float32(rng.Intn(4))*0.25 + 0.125
+		}
+		vecs[i] = v
+	}
+	// bit-exactness probes: -0, a subnormal, the largest finite value
+	vecs[0][0] = float32(math.Copysign(0, -1))
+	vecs[1][0] = math.Float32frombits(1)
+	vecs[2][0] = math.MaxFloat32
+	u := hx.NewUniverse(c.Index.Metric, vecs)
+	ioutil.WriteFile(rankOut, []byte(u.RankModule()), 0644)
+	w, _ := os.Create(out)
+	defer w.Close()
+	bw := bufio.NewWriterSize(w, 1<<20)
+	defer bw.Flush()
+	enc := json.NewEncoder(bw)
+	readers := []string{"whole", "bytewise", "halves", "random", "split7"}
+	hid := 0
+	for it := 0; it < n; it++ {
+		shape := shapes[it%len(shapes)]
+		// build a state
+		idx := c.Index.New(u)
+		nops := rng.Intn(14)
+		if it%len(shapes) == it%23 {
+			nops = 0 // the empty index
+		}
+		for k := 0; k < nops; k++ {
+			id := hx.Uid(1 + rng.Intn(c.NIds))
+			if rng.Intn(3) == 0 {
+				idx.Remove(id)
+			} else {
+				m := shapeMeta(shape, rng)
+				if rng.Intn(3) == 0 {
+					m = shapeMeta("small", rng)
+				}
+				idx.Insert(id, append(amath.Vector{}, vecs[rng.Intn(c.Np)]...), m, lvl(rng, c.MaxLv))
+			}
+		}
+		pre, _ := hx.Project(idx, u, nil)
+		for hdr := 0; hdr <= 1; hdr++ {
+			var buf bytes.Buffer
+			serr := idx.Save(&buf, hdr == 1)
+			data := buf.Bytes()
+			for _, rdm := range readers {
+				for _, tgt := range []string{"fresh", "used"} {
+					hid++
+					ev := sevent{Ev: "stream", Hid: hid, Hdr: hdr, Reader: rdm, Tgt: tgt, Shape: shape, Nbytes: len(data), Nitems: len(pre.Live), Pre: &pre}
+					if hid == 1 {
+						ev.Cfg = map[string]interface{}{"dim": u.Dim}
+					}
+					if serr != nil {
+						ev.Res, ev.Err = "saveerr", serr.Error()
+						enc.Encode(ev)
+						continue
+					}
+					target := c.Index.New(u)
+					if tgt == "used" {
+						for k := 0; k < 1+rng.Intn(6); k++ {
+							target.Insert(hx.Uid(100+rng.Intn(20)), append(amath.Vector{}, vecs[rng.Intn(c.Np)]...), shapeMeta("small", rng), lvl(rng, c.MaxLv))
+						}
+					}
+					rd := &chunkReader{b: append([]byte{}, data...), mode: rdm, rng: rng}
+					func() {
+						defer func() {
+							if r := recover(); r != nil {
+								ev.Res, ev.Err = "loadpanic", fmt.Sprint(r)
+							}
+						}()
+						if err := target.Load(rd, hdr == 1); err != nil {
+							ev.Res, ev.Err = "loaderr", err.Error()
+						} else {
+							ev.Res = "ok"
+						}
+					}()
+					ev.Unread = len(rd.b)
+					if ev.Res == "ok" {
+						st, _ := hx.Project(target, u, nil)
+						ev.St = &st
+					}
+					enc.Encode(ev)
+				}
+			}
+		}
+	}
+}
+
+// ------------------------------------------------------------------ replicas (C04)
+
+type revent struct {
+	Ev    string          `json:"ev"`
+	Hid   int             `json:"hid"`
+	R     string          `json:"r"`
+	Idx   int             `json:"idx"`
+	Cut   int             `json:"cut"`
+	From  int             `json:"from"`
+	Rerr  string          `json:"rerr"`
+	Op    string          `json:"op"`
+	Id    int             `json:"id"`
+	Pt    int             `json:"pt"`
+	Lvl   int             `json:"lvl"`
+	Meta  hx.Meta         `json:"meta"`
+	Items []hx.Item       `json:"items"`
+	Res   string          `json:"res"`
+	Errs  [][]interface{} `json:"errs"`
+	St    *hx.State       `json:"st,omitempty"`
+	Cfg   interface{}     `json:"cfg,omitempty"`
+}
+
+// replicas: each log (map-state history + one more operation) is applied by replica A entry by
+// entry, with a snapshot after every entry; for every cut point another replica is started from
+// that snapshot (fresh, or after having applied cut-1 entries itself) and fed the same bytes.
+func replicas(c Cfg, in, out string, seed int64, nbatch int) {
+	rng := rand.New(rand.NewSource(seed))
+	u := hx.GolombUniverse(c.Index.Metric, c.Np, c.Dim)
+	d := newDriver(c, u)
+	f, err := os.Open(in)
+	if err != nil {
+		panic(err)
+	}
+	defer f.Close()
+	w, _ := os.Create(out)
+	defer w.Close()
+	bw := bufio.NewWriterSize(w, 1<<20)
+	defer bw.Flush()
+	enc := json.NewEncoder(bw)
+	metas := allMetas(c, d.zero)
+	sc := bufio.NewScanner(f)
+	sc.Buffer(make([]byte, 1<<20), 1<<26)
+	hid := 0
+	fill := func(ev *revent, o hx.Op) {
+		ev.Op, ev.Id, ev.Pt, ev.Lvl, ev.Meta, ev.Items = o.Op, o.Id, o.Pt, o.Lvl, o.Meta, o.Items
+		if ev.Meta == nil {
+			ev.Meta = d.zero
+		}
+		if ev.Items == nil {
+			ev.Items = []hx.Item{}
+		}
+		for k := range ev.Items {
+			if ev.Items[k].Meta == nil {
+				ev.Items[k].Meta = d.zero
+			}
+		}
+	}
+	for sc.Scan() {
+		var h hist
+		if err := json.Unmarshal(sc.Bytes(), &h); err != nil {
+			panic(err)
+		}
+		for _, o := range alphabet(c, rng, metas, len(h.H), nbatch) {
+			if o.Op == "saveload" {
+				continue
+			}
+			hid++
+			if c.Stride > 1 && hid%c.Stride != c.Offset%c.Stride {
+				continue
+			}
+			logOps := append(append([]hx.Op{}, h.H...), o)
+			for i := range logOps {
+				if logOps[i].Op == "insert" && i < len(h.H) {
+					logOps[i].Lvl = (logOps[i].Id + i) % (c.MaxLv + 1)
+				}
+			}
+			enc.Encode(revent{Ev: "reset", Hid: hid, Meta: d.zero, Items: []hx.Item{}, Errs: [][]interface{}{},
+				Cfg: map[string]interface{}{"M": c.Index.M, "metric": c.Index.Metric, "algo": c.Index.Algo}})
+			a := storage.NewVerifPartitionSM(c.Index.New(u))
+			data := make([][]byte, len(logOps))
+			snaps := make([][]byte, len(logOps)+1)
+			snapErr := make([]string, len(logOps)+1)
+			take := func(i int) {
+				b, err := a.Snapshot()
+				if err != nil {
+					snapErr[i] = "snapshot: " + err.Error()
+				}
+				snaps[i] = append([]byte{}, b...)
+			}
+			take(0)
+			dead := false
+			for i, op := range logOps {
+				ev := revent{Ev: "apply", Hid: hid, R: "A", Idx: i + 1}
+				fill(&ev, op)
+				bts, outc := a.Apply(hx.Change(u, op))
+				data[i] = bts
+				oc := hx.OutcomeOf(op, outc)
+				ev.Res, ev.Errs = oc.Res, oc.Errs
+				st, _ := hx.Project(a.Index(), u, c.Keys)
+				ev.St = &st
+				enc.Encode(ev)
+				if oc.Res == "panic" || oc.Res == "fatal" {
+					dead = true
+					break
+				}
+				take(i + 1)
+			}
+			if dead {
+				continue
+			}
+			for cut := 0; cut <= len(logOps); cut++ {
+				froms := []int{0}
+				if cut >= 1 {
+					froms = append(froms, cut-1)
+				}
+				if cut >= 2 {
+					froms = append(froms, 1)
+				}
+				for _, from := range froms {
+					b := storage.NewVerifPartitionSM(c.Index.New(u))
+					for i := 0; i < from; i++ {
+						b.ApplyObserved(data[i])
+					}
+					ev := revent{Ev: "branch", Hid: hid, R: "B", Cut: cut, From: from, Meta: d.zero, Items: []hx.Item{}, Errs: [][]interface{}{}}
+					ev.Rerr = snapErr[cut]
+					if ev.Rerr == "" {
+						if err := b.Restore(snaps[cut]); err != nil {
+							ev.Rerr = "restore: " + err.Error()
+						}
+					}
+					st, _ := hx.Project(b.Index(), u, c.Keys)
+					ev.St = &st
+					enc.Encode(ev)
+					if ev.Rerr != "" {
+						continue
+					}
+					for i := cut; i < len(logOps); i++ {
+						ev := revent{Ev: "apply", Hid: hid, R: "B", Idx: i + 1}
+						fill(&ev, logOps[i])
+						oc := hx.OutcomeOf(logOps[i], b.ApplyObserved(data[i]))
+						ev.Res, ev.Errs = oc.Res, oc.Errs
+						st, _ := hx.Project(b.Index(), u, c.Keys)
+						ev.St = &st
+						enc.Encode(ev)
+					}
+				}
+			}
 		}
 	}
 }
